@@ -2,6 +2,10 @@
    socket reads, QXmppLoggable plumbing. */
 #undef _ZN7QString15fromUtf8_helperEPKci
 #ifdef HAVE_T_struct_QArrayData
+/* stores into model blocks always go through the typed member at a plain index (a store through a derived pointer at a
+   symbolic offset makes cbmc treat the whole block as one opaque value) */
+#define C03_BD(d) (((struct qb*)(d))->data)
+#define C03_SD(d) (((struct qs*)(d))->data)
 /* ---- UTF-8 (RFC 3629) ----
    u8_seq: length (1..4) of the well-formed sequence starting at p[0] given `avail` bytes, 0 if p[0] does not start a
    well-formed, complete sequence (stray continuation byte, overlong form, surrogate, > U+10FFFF, truncated). */
@@ -22,14 +26,14 @@ static uint32_t u8_seq(const uint8_t *p, uint32_t avail, uint32_t *cp) {
 /* decoder contract (Qt 5.15 QUtf8::convertToUnicode, stateless): well-formed sequences -> UTF-16; every byte that does not
    start a well-formed complete sequence -> one U+FFFD and decoding resumes at the next byte; a UTF-8 BOM at the very start
    of the input of ONE CALL is skipped. */
-static uint32_t vpl_u8_decode(QAD *dq, const uint8_t *src, uint32_t n, uint32_t hint) { uint16_t *dst = C03_SD(dq);
+static uint32_t vpl_u8_decode(QAD *dq, const uint8_t *src, uint32_t n, uint32_t hint) {
   uint32_t o = 0, skip = 0;
   if (n >= 3 && src[0] == 0xEF && src[1] == 0xBB && src[2] == 0xBF) skip = 3;
   for (uint32_t i = 0; i < hint; i++) { if (i >= n) break; if (skip) { skip--; continue; }
     uint32_t cp = 0; uint32_t l = u8_seq(src + i, n - i, &cp);
-    if (l == 0) { dst[o++] = 0xFFFD; continue; }
-    if (cp >= 0x10000) { dst[o++] = (uint16_t)(0xD800 + ((cp - 0x10000) >> 10)); dst[o++] = (uint16_t)(0xDC00 + ((cp - 0x10000) & 0x3FF)); }
-    else dst[o++] = (uint16_t)cp;
+    if (l == 0) { C03_SD(dq)[o++] = 0xFFFD; continue; }
+    if (cp >= 0x10000) { C03_SD(dq)[o++] = (uint16_t)(0xD800 + ((cp - 0x10000) >> 10)); C03_SD(dq)[o++] = (uint16_t)(0xDC00 + ((cp - 0x10000) & 0x3FF)); }
+    else C03_SD(dq)[o++] = (uint16_t)cp;
     skip = l - 1; }
   return o; }
 /* constant loop bounds: the `hint` of a model block without the "empty => 0" shortcut of qt_core.c (a symbolic length would
@@ -42,10 +46,8 @@ void _ZN7QString15fromUtf8_helperEPKci(char *ret, char *p, uint32_t n) { if (!p)
   uint32_t h = c03_hint8((uint8_t*)p); if (h > C03_MAXBYTES) h = C03_MAXBYTES; QAD *d = qs_new(0, h); uint32_t o = vpl_u8_decode(d, (uint8_t*)p, n, h); d->f1 = o; *(QAD**)ret = d; }
 #undef _ZN10QByteArray6appendERKS_
 #undef _ZNK10QByteArray4leftEi
-#define C03_BD(d) (((struct qb*)(d))->data)
-#define C03_SD(d) (((struct qs*)(d))->data)
 /* [from,to) of b followed by [0,n2) of c as a fresh block */
-static void vpl_c03_cat8(QAD *d, const uint8_t *a, uint32_t n1, const uint8_t *c, uint32_t n2) { for (uint32_t i = 0; i <= C03_MAXBYTES; i++) { C03_BD(d)[i] = i < n1 ? a[i] : (c && i < n1 + n2 ? c[i - n1] : 0); } }
+static void vpl_c03_cat8(QAD *d, const uint8_t *a, uint32_t n1, const uint8_t *c, uint32_t n2) { for (uint32_t i = 0; i <= C03_MAXBYTES; i++) { uint8_t v = 0; if (i < n1) v = a[i]; else if (c && i < n1 + n2) v = c[i - n1]; C03_BD(d)[i] = v; } }
 static QAD *c03_cat(QAD *b, uint32_t from, uint32_t to, QAD *c, uint32_t n2) { uint32_t n1 = to - from; ASSERT(n1 + n2 <= C03_MAXBYTES, "QByteArray model: longer than the bound of this harness"); QAD *d = qb_new(0, C03_MAXBYTES); d->f1 = n1 + n2;
   vpl_c03_cat8(d, qb_bytes(b) + from, n1, c ? qb_bytes(c) : 0, n2); return d; }
 char* _ZN10QByteArray6appendERKS_(char *self, char *o) { QAD *a = *(QAD**)self, *b = *(QAD**)o; *(QAD**)self = c03_cat(a, 0, a->f1, b, b->f1); return self; }
@@ -68,11 +70,19 @@ uint8_t vp_c03_char_boundary(char *ba, uint32_t k) { QAD *d = *(QAD**)ba; if (k 
 #define C03_TCAP 40            /* longest text any model loop has to look at (asserted) */
 #endif
 /* ---- flat copies with constant loop bounds (all strings of this harness are <= C03_TCAP units) ---- */
-/* d = a[0..na) ++ b[0..nb): every store goes to a constant index of the typed member */
-static void vpl_t_cat(QAD *d, const uint16_t *a, uint32_t na, const uint16_t *b, uint32_t nb) { for (uint32_t i = 0; i < C03_TCAP; i++) { if (i >= na + nb) break; C03_SD(d)[i] = i < na ? a[i] : b[i - na]; } }
-static QAD *c03_qs(const uint16_t *a, uint32_t na, const uint16_t *b, uint32_t nb) { if (!b) nb = 0; ASSERT(na + nb <= C03_TCAP && na + nb <= QS_CAP, "text model: string longer than the bound of this harness");
-  QAD *d = qs_new(0, C03_TCAP); d->f1 = na + nb; vpl_t_cat(d, a, na, b ? b : a, nb); return d; }
-
+/* Symbolic-offset copies are done with a logarithmic shifter over a flat local array: every array index is a constant, so a
+   copy costs ~6*TCAP if-then-elses instead of TCAP reads at a symbolic index (TCAP-way case split each). */
+static void vpl_t_load(uint16_t *t, const uint16_t *a, uint32_t n) { for (uint32_t i = 0; i < C03_TCAP; i++) t[i] = i < n ? a[i] : 0; }
+static void vpl_t_shr(uint16_t *t, uint32_t sh) { for (uint32_t k = 0; k < 6; k++) { uint32_t bit = 1u << k; if (sh & bit) { for (uint32_t j = 0; j < C03_TCAP; j++) { uint32_t i = C03_TCAP - 1 - j; t[i] = i >= bit ? t[i - bit] : 0; } } } }
+static void vpl_t_shl(uint16_t *t, uint32_t sh) { for (uint32_t k = 0; k < 6; k++) { uint32_t bit = 1u << k; if (sh & bit) { for (uint32_t i = 0; i < C03_TCAP; i++) t[i] = i + bit < C03_TCAP ? t[i + bit] : 0; } } }
+static void vpl_t_store(QAD *d, const uint16_t *lo, uint32_t nlo, const uint16_t *hi, uint32_t n) { for (uint32_t i = 0; i < C03_TCAP; i++) C03_SD(d)[i] = i < nlo ? lo[i] : (i < n ? hi[i] : 0); }
+/* fresh block = a[0..na) ++ b[0..nb) */
+static QAD *c03_qs(const uint16_t *a, uint32_t na, const uint16_t *b, uint32_t nb) { if (!b) nb = 0; ASSERT(na <= C03_TCAP && nb <= C03_TCAP && na + nb <= C03_TCAP && na + nb <= QS_CAP, "text model: string longer than the bound of this harness");
+  QAD *d = qs_new(0, C03_TCAP); d->f1 = na + nb; uint16_t ta[C03_TCAP], tb[C03_TCAP]; vpl_t_load(ta, a, na); vpl_t_load(tb, b ? b : a, nb); vpl_t_shr(tb, na); vpl_t_store(d, ta, na, tb, na + nb); return d; }
+/* fresh block = a[from..to) */
+static QAD *c03_slice(const uint16_t *a, uint32_t n, uint32_t from, uint32_t to) { ASSERT(from <= to && to <= n && n <= C03_TCAP && n <= QS_CAP, "text model: slice within the string");
+  QAD *d = qs_new(0, C03_TCAP); d->f1 = to - from; uint16_t ta[C03_TCAP]; vpl_t_load(ta, a, n); vpl_t_shl(ta, from); vpl_t_store(d, ta, to - from, ta, to - from); return d; }
+/* ---- QString::append(const QString&): always a fresh block ---- */
 #undef _ZN7QString6appendERKS_
 char* _ZN7QString6appendERKS_(char *self, char *o) { QAD *a = *(QAD**)self, *b = *(QAD**)o; *(QAD**)self = c03_qs(qs_chars(a), a->f1, qs_chars(b), b->f1); return self; }
 #endif
